@@ -127,6 +127,15 @@ BUCases(z) ==
   \cup {[f |-> "baseuri", v |-> t, op |-> "resolve"] : t \in {"%zz", "http://h/x#frag", ":"}}
   \cup {[f |-> "baseuri", v |-> t, op |-> "none"] : t \in {"rel/path", "urn:x", "http://h"}}
 
+\* the same malformed node BELOW the root: as an element of every list-valued keyword and as a member of every
+\* map-valued one, with further subschemas after it in every walk order (Resolve stops at the error: whatever
+\* walks the tree must stop with it).  No prediction beyond "returns" (op none).
+BUAts == {"allOf0", "anyOf1", "oneOf0", "prefixItems0", "itemsArray0", "props", "defs", "items", "notAllOf"}
+BUNested(z) == {[f |-> c.f, v |-> c.v, op |-> "none", at |-> a] :
+                  c \in {x \in BUCases(0) : x.op = "resolve" /\ x.f \notin {"baseuri"}} \cup {[f |-> "default", v |-> "bad", op |-> "resolve"]},
+                  a \in BUAts}
+                \cup {[f |-> "default", v |-> "bad", op |-> "resolve"]}
+
 \* ------------------------------------------------------------ LD: Loader behaviours
 LDCases(z) ==
   {[beh |-> b, res |-> r] : <<b, r>> \in
@@ -135,7 +144,7 @@ LDCases(z) ==
       <<"doc-nil-child", "err">>, <<"doc-not-tree", "err">>, <<"loader-panics-never", "ok">>, <<"no-loader", "err">>,
       <<"in-place-ref-cycle-ok", "ok">>}}
 
-Cases == CASE Family = "BU" -> BUCases(0) [] Family = "LD" -> LDCases(0) [] Family = "TK" -> TKCases(0) [] Family = "KV" -> KVCases(0) [] Family = "GR" -> GRCases(0)
+Cases == CASE Family = "BU" -> BUCases(0) \cup BUNested(0) [] Family = "LD" -> LDCases(0) [] Family = "TK" -> TKCases(0) [] Family = "KV" -> KVCases(0) [] Family = "GR" -> GRCases(0)
 
 Init == cs \in Cases /\ phase = "new"
 Next == phase = "new" /\ phase' = "done" /\ cs' = cs
